@@ -102,6 +102,9 @@ func evalSpelled(cs sc.Case, spec lib.SchemaSpec, how string) (accepted bool, di
 	return true, "", ""
 }
 
+// AstFamily is the AST-specific family (also a source of schemas for C13).
+func AstFamily(f func(sc.Case)) { astFamily(f) }
+
 func astFamily(f func(sc.Case)) {
 	types := []sc.TypeDecl{{Name: "@A", Body: gen.Int("1")}, {Name: "@B", Body: gen.Str(`"s"`).With(gen.R("minLength", "1"))}, {Name: "@O", Body: gen.Obj(gen.P("z", gen.Int("1")))}, {Name: "@P", Body: gen.Obj(gen.P("y", gen.Int("1")))}, {Name: "@E", Enum: []string{"1", "2"}}}
 	lit := func(s string) gen.RuleItem { return gen.RuleItem{Lit: s} }
